@@ -1578,7 +1578,7 @@ func main() {
 		Rule: "every evaluation runs in a child process of the harness (a crash or hang is the observation `no text` of that one case). fixed part: values, member names and lines with every proper prefix of a 2-, 3- and 4-byte UTF-8 encoding (c3, e2, e2 80, e2 82, ef, ef bb, f0, f0 9f, f0 9f 98, f4, f4 8f, f4 8f bf) at the end, at the start, before an ASCII byte and alone, and complete U+2028, U+2029, U+0085, U+FEFF; every byte value 0..255 alone in a named group and embedded in a numbered group; every numeric shape (007, 1., .5, -1, 1e5, 00.1, -0, +1, ...) and boolean shape (ASCII case variants; near-misses that are equal only under Unicode folding or not at all: U+017F long s, Kelvin sign U+212A, full-width letters, combining marks, look-alikes) alone under 0/1/2 names; 0..4 names over the same groups. " +
 			"pipeline part (8 fixed-shape scenarios, then about 1/6 of the seeded cases): 2..4 sources whose line numbers all start at 1 (one line each / one-line batches interleaved round robin / only first lines match / free; lines repeated across sources) are pushed through ONE extractor.New with a real regexp matcher and a JSON view as the expression, with Workers 1 and 2..4, twice each, either as scripted InputBatches in a generated interleaving or as temp files under $VERIF_WORK read by batchers.OpenFilesToChan; every emitted match is grouped by its line and each distinct matching line is one case: all texts ever rendered for that line (whatever was rendered before it) must be the one text of its own captures. " +
 			"width part: scripted matches with 0, 1, 9, 10, 11, 99, 100, 101, 110, 130, 450 and 1000 capture groups (fields of words, numbers, empty texts, unmatched groups), unnamed and named (names on the last / first / middle / 100th group), a regexp with 130 and 100 groups and a dissect pattern with 105 and 99 tokens, and one sequence scenario over lines of width 0..450 with {json <view> <index>} queries for the indices 0, 9, 10, 11, 99, 100, 101, 110, 129, 449, 450: the member name of group i is its decimal numeral for every i. " +
-			"start-up part (3 scenarios in quick, 12 in thorough; one case per line): a regexp with 4..8 named groups is compiled afresh and handed to an extractor with 8 workers over 24 one-line batches, 120 times per view (first with one worker), and 6 times per view in a build with the race detector (bin/C16race, halt on the first report); all texts any worker ever rendered for a line must be the one text of that line; a runtime abort or a race report fails the scenario's cases. " +
+			"start-up part (3 scenarios in quick, 12 in thorough; one case per line): a regexp with 4..8 named groups is compiled afresh and handed to an extractor with 8 workers over 24 one-line batches, 300 times per view (first with one worker), and 6 times per view in a build with the race detector (bin/C16race, halt on the first report); all texts any worker ever rendered for a line must be the one text of that line; a runtime abort or a race report fails the scenario's cases. " +
 			"stateful part (8 sequence + 3 concurrent scenarios in quick, 60 + 12 in thorough; one case per distinct line): {.}, {#}, {.#} and {json <view> <member>} queries are each compiled ONCE, optimised and unoptimised, and evaluated (inside an extractor.IgnoreSet probe, i.e. on the workers' real expression contexts, besides the extractor's own shared key builder) over 5..9 different matches of one scripted matcher — an all-empty probe-like context first, different group counts, unmatched groups, lines sharing the text of group 0, texts needing escapes followed by plain ones, adjacent repeats — either as one sequence with Workers 1 (every evaluation also compared with a fresh compile) or from 4..8 workers at once behind a start barrier, 2500 evaluations of every expression per worker (every 16th compared with a fresh compile); all texts ever produced for a line must be the one text of that line alone, and every query must give the member's text. " +
 			"seeded part: 1/6 `rare expression -r -n -d ... -k k=v` run in-process through cmd.GetSupportedCommands (0..4 data, 0..4 keys, the -k order rotated between evaluations; no NUL, no comma, no '=' in keys, valid UTF-8 only, no surrounding white space: what the flag library passes on unchanged); of the rest 60% scripted matcher (0..5 groups with nested/overlapping/empty/unmatched spans, 0..4 names incl. the context's own keys src, line, ., #, .#, #., @ (source name and line numbers differ from every capture), digits-only, duplicate group, out-of-range index, names needing escapes), 20% real regexp ((?P<name>...) fields separated by 0x1e, optional groups), 20% real dissect (arbitrary token names). " +
 			"group texts: numeric shapes, boolean shapes, log-like words, raw random bytes, digit noise, words mixed with quotes/backslashes/control characters/non-ASCII/invalid UTF-8. " +
